@@ -16,6 +16,8 @@ Cases (`<label>` names the concrete Rust type on the harness side and is ignored
   `ser <label> <variant> | C | T | V`      → `ok <cell hex>` | `err tc|ser <path>`
   `tc <label> | C | T`                     → `ok` | `err <path>`
   `tcrow <label> | untyped or n C… | m T…` → `ok` | `err <path>`
+  `rows <label> | untyped or n C… | m T… | <rows>`  (a parsed RESULT/Rows, then rows_iter::<T>())
+       → `ok rows=<n>` | `typecheck-err <path>`
   `row OP ; OP ; …` with OP ::= `add <label> <variant> | T | V` | `fill n` (n nulls)
        → one `ok:<count>:<len>` / `err(<class> <path>):<count>:<len>` / `toomany:<count>:<len>` per op, then
          `= cells=<parsed cell count> <buffer hex or digest>`
@@ -399,6 +401,32 @@ def run (case impl : String) : String :=
       match rc, ts with
       | some rc, some ts => tcStr (tcheckRow rc ts)
       | _, _ => "bad-case"
+    | _ => "bad-case"
+  | some "rows" =>
+    match segs case with
+    | [_, cseg, tseg, nseg] =>
+      let ttoks := words tseg
+      let ts := match ttoks with
+        | m :: r => match m.toNat? with
+          | some m => match parseTys (r.length + 1) m r with
+            | some (ts, []) => some ts
+            | _ => none
+          | none => none
+        | [] => none
+      let rc := match words cseg with
+        | ["untyped"] => some RowCarrier.untyped
+        | n :: r => match n.toNat? with
+          | some n => match parseCars (r.length + 1) n r with
+            | some (cs, []) => some (RowCarrier.cols cs)
+            | _ => none
+          | none => none
+        | [] => none
+      match rc, ts, nseg.toNat? with
+      | some rc, some ts, some n =>
+        match typedIterNew rc ts n with
+        | .error e => "typecheck-" ++ tcStr (some e)
+        | .ok it => s!"ok rows={it.remaining}"
+      | _, _, _ => "bad-case"
     | _ => "bad-case"
   | some "row" =>
     let body := (case.trimAscii.toString.drop 3).toString
